@@ -246,3 +246,32 @@ void h_parse_object(void) {
   if (r == OK && nc == 1 && g_found[0]) VWITNESS("dup"); if (r == OK && nc == 1 && !g_found[0]) VWITNESS("new"); if (r == INVALID) VWITNESS("invalid");
 }
 #endif
+
+/* ================= parseArray<Filter>: the element filter decides, per element, between parsing and skipping */
+#ifdef CUT_PV_FILTER
+static unsigned g_filter_child_allow[MAXC + 1];
+uint32_t CUT_PV_FILTER(struct S_AJ__detail__JsonDeserializer* d, struct S_AJ__detail__VariantData* v, struct S_AJ__detail__VariantData* filter_data, struct S_AJ__detail__ResourceManager* filter_rm, uint8_t limit) {
+  g_child_slot[g_calls < MAXC ? g_calls : MAXC] = v;
+  return child(d, limit, 0);
+}
+#ifndef FSHAPE
+#define FSHAPE 2
+#endif
+void h_parse_array_filter(void) {
+  uint8_t in[TOT]; in[0] = '['; for (unsigned i = 1; i < TOT; i++) in[i] = vin_u8();
+  uint8_t L = vin_u8(); g_in = in; g_n = TOT;
+  struct Out o = {0};
+  w_parse_array_f(in, TOT, L, FSHAPE, &o);
+  /* projection rule for an array input: filter true or an array filter admit the array; the element filter is `true` (keep),
+     the first element of an array filter, else nothing */
+  const int admit = FSHAPE == 0 || FSHAPE == 2 || FSHAPE == 3 || FSHAPE == 4;
+  const int keep_elements = FSHAPE == 0 || FSHAPE == 2;
+  VASSERT((o.aux & 1) == (unsigned)admit, "an array is created only when the filter admits arrays");
+  if (g_add_failed) { VASSERT(o.code == NOMEM, "allocation failure => NoMemory"); return; }
+  unsigned nc, cons, la; int r = ref_array(L, admit ? 0 : 1, &nc, &cons, &la);
+  common_checks(&o, L, r, nc, cons, la);
+  for (unsigned c = 0; c < MAXC; c++) if (c < g_calls) VASSERT(g_kind[c] == (keep_elements ? 0u : 1u), "elements are parsed when the element filter allows them and skipped otherwise");
+  VASSERT(g_adds == (keep_elements ? g_calls : 0u), "slots are appended only for kept elements: filtering never needs more memory than the unfiltered run");
+  if (r == OK && nc >= 1) VWITNESS("elements"); if (r == INVALID) VWITNESS("invalid");
+}
+#endif
